@@ -41,6 +41,26 @@ class View:
     count: Any       # z3 Int or int
 
 
+def is_int_arr(a) -> bool:
+    arr = a.arr if isinstance(a, SArr) else a
+    return arr.sort().range() == z3.IntSort()
+
+
+def coerce(elem, to_int: bool):
+    """Convert an element expression between the Int and the 64-bit-vector representation of a byte."""
+    if to_int:
+        if is_sym_bv(elem):
+            return z3.simplify(z3.BV2Int(elem))
+        return elem
+    if is_sym_bv(elem):
+        return elem
+    return z3.Int2BV(elem, BVW)
+
+
+def byte_ok(v):
+    return z3.ULE(v, 255) if is_sym_bv(v) else z3.And(v >= 0, v <= 255)
+
+
 def as_int(v):
     if isinstance(v, int):
         return z3.IntVal(v)
@@ -99,7 +119,8 @@ def get(I, a: SArr, idx, lineno):
         return View(lambda k, arr=arr, zs=zs, step=step: arr[zs + step * k], slice_count(to_z3(start), to_z3(stop), step))
     i = norm_index(I, as_int(idx), a.length, lineno)
     v = a.arr[to_z3(i)]
-    I.path.assume(z3.ULE(v, 255))   # buffer elements are bytes (established at every store)
+    if a.pytype != 'list':
+        I.path.assume(byte_ok(v))   # buffer elements are bytes (established at every store)
     return v
 
 
@@ -118,14 +139,29 @@ def store(I, a: SArr, idx, v, lineno):
         j = z3.Int(I.path.fresh_name('sj'))
         zs, zstop = to_z3(start), to_z3(stop)
         arr = a.arr
+        ti = is_int_arr(arr)
         new = z3.Lambda([j], z3.If(z3.And(j >= zs, j < zstop, (j - zs) % step == 0),
-                                   src.fn((j - zs) / step), arr[j]))
+                                   coerce(src.fn((j - zs) / step), ti), arr[j]))
         a.expr = (new, a.length)
         return
     i = to_z3(norm_index(I, as_int(idx), a.length, lineno))
-    bv = as_bv(I, v, lineno)
-    I.path.oblige(f'byte_store_in_range@{lineno}', z3.ULE(bv, 255), lineno)
+    bv = elem_value(I, a, v, lineno)
+    I.path.oblige(f'byte_store_in_range@{lineno}', byte_ok(bv), lineno)
     a.expr = (z3.Store(a.arr, i, bv), a.length)
+
+
+def elem_value(I, a, v, lineno):
+    if is_int_arr(a):
+        if isinstance(v, bool):
+            v = int(v)
+        if isinstance(v, int):
+            return z3.IntVal(v)
+        if is_sym_bv(v):
+            return z3.BV2Int(v)
+        if is_sym_int(v):
+            return v
+        raise Unsupported(f'value of type {type(v).__name__} stored into a byte buffer')
+    return as_bv(I, v, lineno)
 
 
 def as_view(I, v) -> View:
@@ -170,3 +206,50 @@ def repeat_bytes(I, b: bytes, n):
 def zeros(I, n):
     zn = to_z3(as_int(n))
     return View(lambda k: z3.BitVecVal(0, BVW), z3.If(zn < 0, 0, zn))
+
+
+def extend(I, a: SArr, v, lineno):
+    """a += v / a.extend(v): append all elements of a bytes-like value."""
+    if a.pytype == 'bytes':
+        raise Unsupported('in-place extend of bytes')
+    I.effects.append(('mutate', a, 'extend', lineno))
+    src = as_view(I, v)
+    arr, n = a.arr, a.length
+    j = z3.Int(I.path.fresh_name('ej'))
+    cnt = to_z3(src.count)
+    new = z3.Lambda([j], z3.If(z3.And(j >= n, j < n + cnt), coerce(src.fn(j - n), is_int_arr(arr)), arr[j]))
+    a.expr = (new, z3.simplify(n + cnt))
+
+
+def append(I, a: SArr, v, lineno):
+    I.effects.append(('mutate', a, 'append', lineno))
+    if a.pytype == 'list':
+        a.expr = (z3.Store(a.arr, a.length, to_z3(v)), z3.simplify(a.length + 1))
+        return
+    bv = elem_value(I, a, v, lineno)
+    I.path.oblige(f'byte_store_in_range@{lineno}', byte_ok(bv), lineno)
+    a.expr = (z3.Store(a.arr, a.length, bv), z3.simplify(a.length + 1))
+
+
+def index(I, a: SArr, value, start=0, lineno=0):
+    """bytes.index(value, start): first index >= start holding value, else ValueError.
+    Summary (trusted): the result is the least such index."""
+    I.used_summaries.add('bytes.index(v, start) returns the least index >= start holding v, else ValueError')
+    bv = elem_value(I, a, value, lineno)
+    zs = to_z3(as_int(start))
+    if not (isinstance(start, int) and start >= 0):
+        zs = z3.If(zs < 0, z3.If(zs + a.length < 0, 0, zs + a.length), zs)
+    k = z3.Int(I.path.fresh_name('ik'))
+    found = I.fresh('index_found', z3.BoolSort())
+    if I.path.branch(found, f'index.found@{lineno}'):
+        zi = I.fresh('zero_ind', z3.IntSort())
+        I.path.assume(z3.And(zi >= zs, zi < a.length, a.arr[zi] == bv))
+        I.path.assume(z3.ForAll([k], z3.Implies(z3.And(k >= zs, k < zi), a.arr[k] != bv)))
+        return zi
+    I.path.assume(z3.ForAll([k], z3.Implies(z3.And(k >= zs, k < a.length), a.arr[k] != bv)))
+    I.raise_('ValueError', 'subsection not found', lineno=lineno)
+
+
+def copy_of_view(I, v: View, pytype='bytearray') -> SArr:
+    k = z3.Int(I.path.fresh_name('ck'))
+    return SArr(z3.Lambda([k], v.fn(k)), to_z3(v.count), pytype, fresh=True)
